@@ -262,7 +262,12 @@ def g_c14(ctxs):
 
 def o_c08(ctx):
     pairs = ALL_STD[0::2] if ctx.c.kind == 0 else LEFT
-    return search_vs_spec(ctx, pairs)
+    out = search_vs_spec(ctx, pairs)
+    b = single(ctx.i, "BUILD")
+    if single(ctx.s, "SPECBUILD") == ["ok"] and b is not None and b != ["ok"] and not (b[0].startswith("err:AutomatonScale")):
+        out.append(v(ctx.c, "construction fails on a valid UTF-8 collection: this variant answers nothing where its twin answers",
+                     " ".join(b)))
+    return out
 
 
 def o_c11(ctx):
